@@ -1,14 +1,51 @@
 """C10 - a deletion request can never remove another author's events."""
+import random
+
+import common as C
 from dbengine import DbEngine
+from dbgen import HistGen, AUTHORS
+from engine import Verdict
 
 
 class Engine(DbEngine):
     prop = 'C10'
     profiles = ('debug',)
-    weights = {'new': 4, 'addr': 3, 'delete': 10, 'resubmit': 1.5, 'remove': 0.5, 'qown': 0.5}
+    weights = {'new': 4, 'addr': 3, 'delete': 10, 'resubmit': 1.5, 'remove': 0.5, 'qown': 0.5, 'ghost': 0.3}
     aspects = {'addrs.find', 'noop-on-failure', 'stats.del', 'addrs.asof', 'store.result', 'ids.del', 'ids.hash', 'ids.has'}
     quick = (200, 30)
     thorough = (5000, 70)
-    rule = "deletion-heavy histories: kind-5 requests with 1-5 tags mixing own / foreign / absent / malformed 'e' targets and own / foreign / malformed 'a' addresses in every position, arriving at any point. oracle: every id's has/deleted/bytes and every address's marker/holder equal the abstract store after every op; a refused request changes nothing. non-trivial = history with >= 2 stores"
+    rule = "deletion-heavy histories: kind-5 requests with 1-5 tags mixing own / foreign / absent / malformed 'e' targets and own / foreign / malformed 'a' addresses in every position, arriving at any point. oracle: every id's has/deleted/bytes and every address's marker/holder equal the abstract store after every op; a refused request changes nothing. non-trivial = history with >= 2 stores. Plus the arrival order that only exists with two submitters: an event and another author's request naming its id offered by two threads of one Store under the schedule controller; whatever the interleaving, an event whose store succeeded is retrievable and unmarked when both have returned (either the request came first and the store was refused, or the request was refused)"
     trusted = DbEngine.db_trusted
     assumptions = ["an 'e' tag naming an id that is not retrievable is marked without an author check (code comment: 'we presume this is valid'); the property speaks of stored events"]
+    races = {'quick': 120, 'thorough': 2500}
+
+    def make_race(self, rng):
+        sub = random.Random(rng.getrandbits(64))
+        g = HistGen(sub, {'new': 3, 'addr': 2}, sub.choice([0, 1, 3])).run()
+        a, b = sub.sample(AUTHORS, 2)
+        victim = g.new_event(kind=sub.choice([1, 1, 7, 30023]), pk=a, created=300, tags=[[b'd', b'v']] if sub.random() < 0.3 else [])
+        victim['content'] = b'victim'
+        victim['id'] = __import__('dbgen').fake_id(victim)
+        own = g.new_event(kind=1, pk=b, created=301, tags=[])
+        setup = [g.render_op(op) for op in g.ops]
+        dtags = [[b'e', victim['id'].hex().encode()]]
+        if sub.random() < 0.5:
+            setup.append('store ' + C.t_event(own))
+            dtags.insert(sub.randrange(2), [b'e', own['id'].hex().encode()])
+        dreq = g.new_event(kind=5, pk=b, created=400, tags=dtags)
+        progs = [['store ' + C.t_event(victim)], ['store ' + C.t_event(dreq)]]
+        sub.shuffle(progs)
+        line = self.race_line(sub, g, setup, progs, [victim['id'], dreq['id']])
+        vpos = [t for t, p in enumerate(progs) if p[0] == 'store ' + C.t_event(victim)][0]
+        return ('foreign-deletion-race', line), {'victim_thread': vpos}
+
+    def judge_race(self, meta, out):
+        resp, flags = self.race_parse(out)
+        if not flags:
+            return Verdict(corr_ok=False, cls='unparsable-output', detail=out[:120], outcome='unparsable')
+        stored = resp.get('%d.0' % meta['victim_thread'], '').startswith('ok')
+        if stored and not flags[0].startswith('10'):
+            return Verdict(oracle_ok=False, cls='foreign-request-removed-a-stored-event',
+                           detail="the event's store succeeded, yet after another author's deletion request naming it the event observes as has/deleted = %s" % flags[0][:2],
+                           outcome='removed')
+        return Verdict(outcome='race-ok' if stored else 'race-refused', nontrivial=True)
